@@ -373,6 +373,24 @@ theorem Sh_advance {c : Cfg} {s : State} (p : Nat) (hp : s.pdone = false → s.p
 
 /-! ### adding a retrieve job -/
 
+theorem JIn_addJob {s : State} (jn : Job) :
+    ∀ j, JIn { s with retrQ := jn :: s.retrQ } j → j = jn ∨ JIn s j := by
+  rintro j (hj | ⟨k, hk⟩)
+  · rcases List.mem_cons.1 hj with e | hm
+    · exact Or.inl e
+    · exact Or.inr (Or.inl hm)
+  · exact Or.inr (Or.inr ⟨k, hk⟩)
+
+theorem specBases_addJob {s : State} (jn : Job) :
+    ∀ x, x ∈ specBases { s with retrQ := jn :: s.retrQ } →
+      (jn.ub.isSome = true ∧ x = jn.base) ∨ x ∈ specBases s := by
+  intro x hx
+  rcases mem_specBases.1 hx with ⟨j, hj, hs, rfl⟩ | ho
+  · rcases JIn_addJob jn j hj with rfl | hj
+    · exact Or.inl ⟨hs, rfl⟩
+    · exact Or.inr (mem_specBases.2 (Or.inl ⟨j, hj, hs, rfl⟩))
+  · exact Or.inr (mem_specBases.2 (Or.inr ho))
+
 theorem UU_addJob {c : Cfg} {s : State} (jn : Job) (h : UIB s ∧ UIT c s)
     (fb : FreshB s jn.base) (ft : jn.ub.isSome = true → FreshT c s jn.base)
     (hn : s.pdone = false → ∀ f, jn.ub = some f → f.inq = false → jn.base ≤ s.ppos) :
@@ -380,20 +398,8 @@ theorem UU_addJob {c : Cfg} {s : State} (jn : Job) (h : UIB s ∧ UIT c s)
   obtain ⟨hB, hT⟩ := h
   have hjb : jobBases { s with retrQ := jn :: s.retrQ } = jn.base :: jobBases s := by
     simp only [jobBases, List.flatMap_cons, Job.baseL, List.cons_append, List.nil_append]
-  have hji : ∀ j, JIn { s with retrQ := jn :: s.retrQ } j → j = jn ∨ JIn s j := by
-    rintro j (hj | ⟨k, hk⟩)
-    · rcases List.mem_cons.1 hj with e | hm
-      · exact Or.inl e
-      · exact Or.inr (Or.inl hm)
-    · exact Or.inr (Or.inr ⟨k, hk⟩)
-  have hspec : ∀ x, x ∈ specBases { s with retrQ := jn :: s.retrQ } →
-      (jn.ub.isSome = true ∧ x = jn.base) ∨ x ∈ specBases s := by
-    intro x hx
-    rcases mem_specBases.1 hx with ⟨j, hj, hs, rfl⟩ | ho
-    · rcases hji j hj with rfl | hj
-      · exact Or.inl ⟨hs, rfl⟩
-      · exact Or.inr (mem_specBases.2 (Or.inl ⟨j, hj, hs, rfl⟩))
-    · exact Or.inr (mem_specBases.2 (Or.inr ho))
+  have hji := JIn_addJob (s := s) jn
+  have hspec := specBases_addJob (s := s) jn
   refine ⟨⟨?_, ?_, ?_, ?_⟩, ⟨hT.t1, hT.tb, ?_, ?_, ?_⟩⟩
   · show (jobBases { s with retrQ := jn :: s.retrQ } ++ orphanBases s).Nodup
     rw [hjb, List.cons_append]
@@ -420,5 +426,472 @@ theorem UU_addJob {c : Cfg} {s : State} (jn : Job) (h : UIB s ∧ UIT c s)
     rcases hspec x hx with ⟨hs, rfl⟩ | hx
     · exact (ft hs).st
     · exact hT.ot x hx
+
+
+/-! ### scan tasks -/
+
+theorem mem_scanBlocks {c : Cfg} {s : State} {y : Nat} :
+    y ∈ scanBlocks c s ↔ (∃ sp ∈ s.scanQ, sp / c.W = y) ∨ (∃ st, Phase.scan st y ∈ s.busy) := by
+  simp only [scanBlocks, List.mem_append, List.mem_map, List.mem_flatMap]
+  constructor
+  · rintro (h | ⟨ph, hph, hy⟩)
+    · exact Or.inl h
+    · cases ph with
+      | scan a b =>
+        simp only [Phase.scanBlock, List.mem_singleton] at hy
+        subst hy; exact Or.inr ⟨a, hph⟩
+      | retr j k => simp [Phase.scanBlock] at hy
+      | retr2 e => simp [Phase.scanBlock] at hy
+      | emit e => simp [Phase.scanBlock] at hy
+  · rintro (h | ⟨st, h⟩)
+    · exact Or.inl h
+    · exact Or.inr ⟨_, h, by simp [Phase.scanBlock]⟩
+
+theorem scanBlocks_detach (c : Cfg) (s : State) (k : Option Nat) :
+    scanBlocks c (detach s k) = scanBlocks c s := by
+  obtain ⟨_, _, e3, _, _, _, _, e8, _⟩ := detach_eqs s k
+  unfold scanBlocks; rw [e3, e8]
+
+/-- a position strictly inside block `k`'s scan range lies in no other block's range -/
+theorem block_excl {c : Cfg} {k k' st x : Nat} (hne : k' ≠ k) (ta : offs c k ≤ st) (hx1 : st < x)
+    (hx2 : x ≤ offs c (k + 1)) (h1 : offs c k' < x) (h2 : x ≤ offs c (k' + 1)) : False := by
+  rcases Nat.lt_or_gt_of_ne hne with hlt | hgt
+  · have := offs_mono c (show k' + 1 ≤ k by omega); omega
+  · have := offs_mono c (show k + 1 ≤ k' by omega); omega
+
+theorem div_eq_block {c : Cfg} {k st x : Nat} (ta : offs c k ≤ st) (h1 : st < x)
+    (h2 : x < offs c (k + 1)) : x / c.W = k := by
+  unfold offs at ta h2
+  have e : (k + 1) * c.W = k * c.W + c.W := Nat.succ_mul _ _
+  apply Nat.div_eq_of_lt_le <;> omega
+
+/-! ### simple steps -/
+
+theorem UU_rTake {c : Cfg} {s s' : State} (h : UIB s ∧ UIT c s) (hs : stepRTake s = some s') :
+    UIB s' ∧ UIT c s' := by
+  unfold stepRTake at hs; split at hs <;> simp at hs; subst hs
+  exact UU_frame h (ShB_same rfl rfl rfl rfl rfl rfl (Or.inl rfl)) (ShT_same rfl rfl (Nat.le_refl _))
+
+theorem UU_rQuit {c : Cfg} {s s' : State} (h : UIB s ∧ UIT c s) (hs : stepRQuit s = some s') :
+    UIB s' ∧ UIT c s' := by
+  unfold stepRQuit at hs; split at hs <;> simp at hs; subst hs
+  exact UU_frame h (ShB_same rfl rfl rfl rfl rfl rfl (Or.inl rfl)) (ShT_same rfl rfl (Nat.le_refl _))
+
+theorem UU_rEmpty {c : Cfg} {s s' : State} (h : UIB s ∧ UIT c s) (hs : stepREmpty c s = some s') :
+    UIB s' ∧ UIT c s' := by
+  unfold stepREmpty at hs; split at hs <;> simp at hs; subst hs
+  exact UU_frame h (ShB_same rfl rfl rfl rfl rfl rfl (Or.inl rfl)) (ShT_same rfl rfl (Nat.le_refl _))
+
+theorem UU_rEof {c : Cfg} {s s' : State} (h : UIB s ∧ UIT c s) (hs : stepREof s = some s') :
+    UIB s' ∧ UIT c s' := by
+  unfold stepREof at hs; split at hs <;> simp at hs; subst hs
+  exact UU_frame h (ShB_same rfl rfl rfl rfl rfl rfl (Or.inl rfl)) (ShT_same rfl rfl (Nat.le_refl _))
+
+theorem UU_wDone {c : Cfg} {s s' : State} (h : UIB s ∧ UIT c s) (hs : stepWDone s = some s') :
+    UIB s' ∧ UIT c s' := by
+  unfold stepWDone at hs; split at hs <;> simp at hs; subst hs
+  exact UU_frame h (ShB_same rfl rfl rfl rfl rfl rfl (Or.inl rfl)) (ShT_same rfl rfl (Nat.le_refl _))
+
+theorem UU_parseStart {c : Cfg} {s s' : State} (h : UIB s ∧ UIT c s)
+    (hs : stepParseStart c s = some s') : UIB s' ∧ UIT c s' := by
+  unfold stepParseStart at hs; split at hs
+  · simp only [Option.some.injEq] at hs; subst hs
+    exact UU_frame h (ShB_same rfl rfl rfl rfl rfl rfl (Or.inl rfl)) (ShT_same rfl rfl (Nat.le_refl _))
+  · simp at hs
+
+theorem Sh_reorder (c : Cfg) (s : State) (ob : OB) :
+    ShB s { s with reordQ := s.reordQ.erase ob } ∧ ShT c s { s with reordQ := s.reordQ.erase ob } := by
+  refine ⟨ShB_busy rfl rfl rfl (Or.inl rfl) (List.Sublist.refl _) (fun _ _ h => h) ?_,
+    ShT_same rfl rfl (Nat.le_refl _)⟩
+  exact ItemBase_mono (fun e he => Or.inl ⟨e, he, rfl⟩)
+    (fun o ho => Or.inr ⟨o, List.mem_of_mem_erase ho, rfl⟩)
+
+theorem UU_reorder {c : Cfg} {s s' : State} {ob : OB} (h : UIB s ∧ UIT c s)
+    (hs : stepReorder c s ob = some s') : UIB s' ∧ UIT c s' := by
+  obtain ⟨fb, ft⟩ := Sh_reorder c s ob
+  have h1 := UU_frame h fb ft
+  unfold stepReorder at hs; split at hs
+  · split at hs
+    · simp only [Option.some.injEq] at hs; subst hs
+      exact UU_frame h1 (ShB_same rfl rfl rfl rfl rfl rfl (Or.inl rfl)) (ShT_same rfl rfl (Nat.le_refl _))
+    · split at hs <;> simp only [Option.some.injEq] at hs <;> subst hs <;>
+        exact UU_frame h1 (ShB_same rfl rfl rfl rfl rfl rfl (Or.inl rfl))
+          (ShT_same rfl rfl (Nat.le_refl _))
+  · simp at hs
+
+theorem UU_rBlock {c : Cfg} (hW : 0 < c.W) {s s' : State} (h : UIB s ∧ UIT c s) (hQ : SQ c s)
+    (hs : stepRBlock c s = some s') : UIB s' ∧ UIT c s' := by
+  unfold stepRBlock at hs; split at hs
+  · next hg =>
+    simp only [Bool.and_eq_true, beq_iff_eq, decide_eq_true_eq] at hg
+    dsimp only at hs; split at hs <;> simp only [Option.some.injEq] at hs <;> subst hs
+    · exact UU_frame h (ShB_same rfl rfl rfl rfl rfl rfl (Or.inl rfl))
+        (ShT_same rfl rfl (Nat.le_refl _))
+    · obtain ⟨hB, hT⟩ := h
+      refine ⟨UIB_frame hB (ShB_same rfl rfl rfl rfl rfl rfl (Or.inl rfl)), ?_⟩
+      have hmul : s.rd * c.W ≤ s.nread * c.W := Nat.mul_le_mul_right _ hQ.rn
+      have ho : offs c s.rd = s.rd * c.W := by unfold offs; omega
+      have hdiv : offs c s.rd / c.W = s.rd := by rw [ho]; exact Nat.mul_div_cancel _ hW
+      refine ⟨?_, hT.tb, ?_, hT.db, ?_⟩
+      · show ((offs c s.rd / c.W) :: scanBlocks c s).Nodup
+        rw [hdiv]
+        refine List.nodup_cons.2 ⟨?_, hT.t1⟩
+        intro hm
+        rcases mem_scanBlocks.1 hm with ⟨sp, hsp, e⟩ | ⟨st, hst⟩
+        · have := div_lt_of_lt_offs (hQ.sq sp hsp); omega
+        · have : s.rd < s.rd := hQ.bk _ hst
+          omega
+      · intro x hx sp hsp h1 h2
+        rcases List.mem_cons.1 hsp with e | hm
+        · subst e
+          rw [hdiv] at h1
+          have : x ≤ offs c s.rd := hT.ot x hx
+          omega
+        · exact hT.dq x hx sp hm h1 h2
+      · intro x hx
+        have h1 : x ≤ offs c s.rd := hT.ot x hx
+        have h2 := offs_mono c (Nat.le_add_right s.rd 1)
+        show x ≤ offs c (s.rd + 1)
+        omega
+  · simp at hs
+
+theorem Sh_retrStart (c : Cfg) (s : State) {j j' : Job} (k : Option Nat) (hj : j ∈ s.retrQ)
+    (hb : j'.base = j.base) (hu : j'.ub = j.ub) :
+    ShB s { s with retrQ := s.retrQ.erase j, busy := .retr j' k :: s.busy } ∧
+    ShT c s { s with retrQ := s.retrQ.erase j, busy := .retr j' k :: s.busy } := by
+  have hji : ∀ x, JIn { s with retrQ := s.retrQ.erase j, busy := .retr j' k :: s.busy } x →
+      ∃ j0, JIn s j0 ∧ j0.base = x.base ∧ j0.ub = x.ub := by
+    rintro x (hq | ⟨k', hk'⟩)
+    · exact ⟨x, Or.inl (List.mem_of_mem_erase hq), rfl, rfl⟩
+    · rcases List.mem_cons.1 hk' with e | hm
+      · injection e with e1 e2
+        rw [e1]; exact ⟨j, Or.inl hj, hb.symm, hu.symm⟩
+      · exact ⟨x, Or.inr ⟨k', hm⟩, rfl, rfl⟩
+  constructor
+  · refine ⟨?_, ?_, fun _ h => h, ?_, fun hd => ⟨hd, Nat.le_refl _⟩, fun _ _ h => Or.inl h, ?_⟩
+    · intro hn
+      have p1 := flatMap_erase_perm Job.baseL hj
+      have p2 : List.Perm (jobBases s ++ orphanBases s)
+          ((s.retrQ.erase j).flatMap Job.baseL ++ j.base :: s.busy.flatMap Phase.jobBase
+            ++ orphanBases s) :=
+        List.Perm.append_right _ ((p1.append_right _).trans List.perm_middle.symm)
+      have := (p2.nodup_iff).1 hn
+      simpa only [jobBases, orphanBases, List.flatMap_cons, Phase.jobBase, Job.baseL,
+        List.cons_append, List.nil_append, hb] using this
+    · intro x hx
+      obtain ⟨j0, h0, hb0, hu0⟩ := hji x hx
+      exact ⟨j0, h0, hb0, fun hs => by rw [hu0]; exact hs⟩
+    · refine ItemBase_mono ?_ (fun o ho => Or.inr ⟨o, ho, rfl⟩)
+      rintro e (he | he | he)
+      · exact Or.inl ⟨e, Or.inl he, rfl⟩
+      · rcases List.mem_cons.1 he with e' | hm
+        · cases e'
+        · exact Or.inl ⟨e, Or.inr (Or.inl hm), rfl⟩
+      · rcases List.mem_cons.1 he with e' | hm
+        · cases e'
+        · exact Or.inl ⟨e, Or.inr (Or.inr hm), rfl⟩
+    · intro _ x hx f hf hi
+      obtain ⟨j0, h0, hb0, hu0⟩ := hji x hx
+      exact Or.inr ⟨j0, f, h0, by rw [hu0]; exact hf, hi, hb0⟩
+  · refine ShT_busy (List.Sublist.refl _) ?_ ?_ (Nat.le_refl _)
+    · simp only [List.flatMap_cons, Phase.scanBlock, List.nil_append]
+      exact List.Sublist.refl _
+    · intro st k' hm
+      rcases List.mem_cons.1 hm with e | hm
+      · cases e
+      · exact hm
+
+theorem UU_retrStart {c : Cfg} {s s' : State} {j : Job} (h : UIB s ∧ UIT c s)
+    (hs : stepRetrStart c s j = some s') : UIB s' ∧ UIT c s' := by
+  unfold stepRetrStart at hs; split at hs
+  · next hg =>
+    simp only [Bool.and_eq_true, List.contains_iff_mem] at hg
+    have hj : j ∈ s.retrQ := hg.1.2
+    simp only [Option.some.injEq] at hs; subst hs
+    obtain ⟨fb, ft⟩ := Sh_retrStart c s (j' := { j with corrupt := j.corrupt || decide (j.curr < headOffs c s) })
+      (if tailOffs c s ≤ j.curr then none
+        else if decide (j.curr < headOffs c s) then (if s.head < s.rd then some s.head else none)
+        else some (j.curr / c.W)) hj rfl rfl
+    exact UU_frame h fb ft
+  · simp at hs
+
+theorem UU_retrPost {c : Cfg} {s s' : State} {e : EJob} (h : UIB s ∧ UIT c s)
+    (hs : stepRetrPost s e = some s') : UIB s' ∧ UIT c s' := by
+  unfold stepRetrPost at hs; split at hs
+  · next hg =>
+    have hm : Phase.retr2 e ∈ s.busy := by simpa using hg
+    simp only [Option.some.injEq] at hs; subst hs
+    refine UU_frame h (ShB_busy rfl rfl rfl (Or.inl rfl) (flatMap_sublist _ List.erase_sublist)
+      (fun _ _ h => List.mem_of_mem_erase h) ?_)
+      (ShT_busy (List.Sublist.refl _) (flatMap_sublist _ List.erase_sublist)
+        (fun _ _ h => List.mem_of_mem_erase h) (Nat.le_refl _))
+    refine ItemBase_mono ?_ (fun o ho => Or.inr ⟨o, ho, rfl⟩)
+    rintro x (he | he | he)
+    · rcases List.mem_cons.1 he with e' | hm'
+      · rw [e']; exact Or.inl ⟨e, Or.inr (Or.inl hm), rfl⟩
+      · exact Or.inl ⟨x, Or.inl hm', rfl⟩
+    · exact Or.inl ⟨x, Or.inr (Or.inl (List.mem_of_mem_erase he)), rfl⟩
+    · exact Or.inl ⟨x, Or.inr (Or.inr (List.mem_of_mem_erase he)), rfl⟩
+  · simp at hs
+
+theorem UU_emitStart {c : Cfg} {s s' : State} {e : EJob} (h : UIB s ∧ UIT c s)
+    (hs : stepEmitStart c s e = some s') : UIB s' ∧ UIT c s' := by
+  unfold stepEmitStart at hs; split at hs
+  · next hg =>
+    simp only [Bool.and_eq_true, List.contains_iff_mem] at hg
+    have hm : e ∈ s.emitQ := hg.1.2
+    simp only [Option.some.injEq] at hs; subst hs
+    refine UU_frame h (ShB_busy rfl rfl rfl (Or.inl rfl) ?_ ?_ ?_) (ShT_busy (List.Sublist.refl _) ?_ ?_ (Nat.le_refl _))
+    · simp only [List.flatMap_cons, Phase.jobBase, List.nil_append]; exact List.Sublist.refl _
+    · intro j k hk
+      rcases List.mem_cons.1 hk with e' | hk
+      · cases e'
+      · exact hk
+    · refine ItemBase_mono ?_ (fun o ho => Or.inr ⟨o, ho, rfl⟩)
+      rintro x (he | he | he)
+      · exact Or.inl ⟨x, Or.inl (List.mem_of_mem_erase he), rfl⟩
+      · rcases List.mem_cons.1 he with e' | hm'
+        · cases e'
+        · exact Or.inl ⟨x, Or.inr (Or.inl hm'), rfl⟩
+      · rcases List.mem_cons.1 he with e' | hm'
+        · injection e' with e''; rw [e'']; exact Or.inl ⟨e, Or.inl hm, rfl⟩
+        · exact Or.inl ⟨x, Or.inr (Or.inr hm'), rfl⟩
+    · simp only [List.flatMap_cons, Phase.scanBlock, List.nil_append]; exact List.Sublist.refl _
+    · intro st k hk
+      rcases List.mem_cons.1 hk with e' | hk
+      · cases e'
+      · exact hk
+  · simp at hs
+
+theorem UU_emitEnd {c : Cfg} {s s' : State} {e : EJob} (h : UIB s ∧ UIT c s)
+    (hs : stepEmitEnd s e = some s') : UIB s' ∧ UIT c s' := by
+  unfold stepEmitEnd at hs; split at hs
+  · next hg =>
+    have hm : Phase.emit e ∈ s.busy := by simpa using hg
+    have hie : ItemBase s e.base := Or.inl ⟨e, Or.inr (Or.inr hm), rfl⟩
+    have hE : ∀ x, EIn { s with busy := s.busy.erase (.emit e) } x → ItemBase s x.base := by
+      rintro x (he | he | he)
+      · exact Or.inl ⟨x, Or.inl he, rfl⟩
+      · exact Or.inl ⟨x, Or.inr (Or.inl (List.mem_of_mem_erase he)), rfl⟩
+      · exact Or.inl ⟨x, Or.inr (Or.inr (List.mem_of_mem_erase he)), rfl⟩
+    dsimp only at hs
+    split at hs <;> simp only [Option.some.injEq] at hs <;> subst hs
+    · refine UU_frame h (ShB_busy rfl rfl rfl (Or.inl rfl) (flatMap_sublist _ List.erase_sublist)
+        (fun _ _ h => List.mem_of_mem_erase h) ?_)
+        (ShT_busy (List.Sublist.refl _) (flatMap_sublist _ List.erase_sublist)
+          (fun _ _ h => List.mem_of_mem_erase h) (Nat.le_refl _))
+      refine ItemBase_mono ?_ ?_
+      · rintro x (he | he | he)
+        · rcases List.mem_cons.1 he with e' | hm'
+          · subst e'; exact hie
+          · exact hE x (Or.inl hm')
+        · exact hE x (Or.inr (Or.inl he))
+        · exact hE x (Or.inr (Or.inr he))
+      · intro o ho
+        rcases List.mem_cons.1 ho with e' | hm'
+        · subst e'; exact hie
+        · exact Or.inr ⟨o, hm', rfl⟩
+    · refine UU_frame h (ShB_busy rfl rfl rfl (Or.inl rfl) (flatMap_sublist _ List.erase_sublist)
+        (fun _ _ h => List.mem_of_mem_erase h) ?_)
+        (ShT_busy (List.Sublist.refl _) (flatMap_sublist _ List.erase_sublist)
+          (fun _ _ h => List.mem_of_mem_erase h) (Nat.le_refl _))
+      refine ItemBase_mono (fun x hx => hE x hx) ?_
+      intro o ho
+      rcases List.mem_cons.1 ho with e' | hm'
+      · subst e'; exact hie
+      · exact Or.inr ⟨o, hm', rfl⟩
+  · simp at hs
+
+
+/-! ### scanStart -/
+
+/-- a scan task moves from `scan_q` into a worker -/
+theorem UU_scanMove {c : Cfg} {s : State} {sp start : Nat} (h : UIB s ∧ UIT c s)
+    (hsp : sp ∈ s.scanQ) (hge : sp ≤ start) :
+    UIB { s with scanQ := s.scanQ.erase sp, busy := .scan start (sp / c.W) :: s.busy } ∧
+    UIT c { s with scanQ := s.scanQ.erase sp, busy := .scan start (sp / c.W) :: s.busy } := by
+  obtain ⟨hB, hT⟩ := h
+  have fb : ShB s { s with scanQ := s.scanQ.erase sp, busy := .scan start (sp / c.W) :: s.busy } := by
+    refine ShB_busy rfl rfl rfl (Or.inl rfl) ?_ ?_ ?_
+    · simp only [List.flatMap_cons, Phase.jobBase, List.nil_append]; exact List.Sublist.refl _
+    · intro j k hk
+      rcases List.mem_cons.1 hk with e' | hk
+      · cases e'
+      · exact hk
+    · refine ItemBase_mono ?_ (fun o ho => Or.inr ⟨o, ho, rfl⟩)
+      rintro x (he | he | he)
+      · exact Or.inl ⟨x, Or.inl he, rfl⟩
+      · rcases List.mem_cons.1 he with e' | hm'
+        · cases e'
+        · exact Or.inl ⟨x, Or.inr (Or.inl hm'), rfl⟩
+      · rcases List.mem_cons.1 he with e' | hm'
+        · cases e'
+        · exact Or.inl ⟨x, Or.inr (Or.inr hm'), rfl⟩
+  refine ⟨UIB_frame hB fb, ?_, ?_, ?_, ?_, ?_⟩
+  · have p1 : List.Perm (s.scanQ.map (· / c.W)) ((sp / c.W) :: (s.scanQ.erase sp).map (· / c.W)) :=
+      (List.perm_cons_erase hsp).map _
+    have p2 : List.Perm (scanBlocks c s)
+        ((s.scanQ.erase sp).map (· / c.W) ++ (sp / c.W) :: s.busy.flatMap Phase.scanBlock) :=
+      (p1.append_right _).trans List.perm_middle.symm
+    have := (p2.nodup_iff).1 hT.t1
+    simpa only [scanBlocks, List.flatMap_cons, Phase.scanBlock, List.cons_append,
+      List.nil_append] using this
+  · intro st k hm
+    rcases List.mem_cons.1 hm with e | hm
+    · injection e with e1 e2
+      subst e1; subst e2
+      have := Nat.div_mul_le_self sp c.W
+      unfold offs; omega
+    · exact hT.tb st k hm
+  · intro x hx q hq
+    exact hT.dq x (fb.sb hx) q (List.mem_of_mem_erase hq)
+  · intro x hx st k hm h1 h2
+    rcases List.mem_cons.1 hm with e | hm
+    · injection e with e1 e2
+      subst e1; subst e2
+      have := hT.dq x (fb.sb hx) sp hsp h1 h2
+      omega
+    · exact hT.db x (fb.sb hx) st k hm h1 h2
+  · intro x hx; exact hT.ot x (fb.sb hx)
+
+theorem UU_scanStart {c : Cfg} {s s' : State} {sp : Nat} (h : UIB s ∧ UIT c s)
+    (hs : stepScanStart c s sp = some s') : UIB s' ∧ UIT c s' := by
+  unfold stepScanStart at hs; split at hs
+  · next hg =>
+    simp only [Bool.and_eq_true, List.contains_iff_mem] at hg
+    have hsp : sp ∈ s.scanQ := hg.1.2
+    simp only [Option.some.injEq] at hs; subst hs
+    have hge : sp ≤ (if sp / c.W == s.ppos / c.W && sp < s.ppos then s.ppos else sp) := by
+      split
+      · next hc =>
+        simp only [Bool.and_eq_true, decide_eq_true_eq] at hc
+        omega
+      · exact Nat.le_refl _
+    have h1 := UU_scanMove (c := c) h hsp hge
+    exact UU_frame h1 (ShB_same rfl rfl rfl rfl rfl rfl (Or.inl rfl)) (ShT_same rfl rfl (Nat.le_refl _))
+  · simp at hs
+
+/-! ### scanEnd -/
+
+theorem UU_scanNew {c : Cfg} {s1 : State} {x st k : Nat} (h : UIB s1 ∧ UIT c s1) (hP : PI c s1)
+    (hd : s1.pdone = false) (ta : offs c k ≤ st)
+    (tsp : ∀ y ∈ specBases s1, offs c k < y → y ≤ offs c (k + 1) → y ≤ st)
+    (tk : k ∉ scanBlocks c s1) (trd : k < s1.rd) (hx1 : st < x) (hx2 : x ≤ offs c (k + 1)) :
+    (UIB (scanNew c s1 x) ∧ UIT c (scanNew c s1 x)) ∧
+    (∀ y ∈ specBases (scanNew c s1 x), offs c k < y → y ≤ offs c (k + 1) → y ≤ x) ∧
+    k ∉ scanBlocks c (scanNew c s1 x) := by
+  unfold scanNew; split
+  · refine ⟨UU_frame h (ShB_same rfl rfl rfl rfl rfl rfl (Or.inl rfl))
+      (ShT_same rfl rfl (Nat.le_refl _)), ?_, tk⟩
+    intro y hy h1 h2
+    have := tsp y hy h1 h2
+    omega
+  · next hx' =>
+    have hns : x ∉ specBases s1 := fun hm => by
+      have := tsp x hm (by omega) hx2; omega
+    have fb : FreshB s1 x := by
+      refine ⟨?_, ?_⟩
+      · intro hm
+        rcases List.mem_append.1 hm with hm | hm
+        · obtain ⟨j, hj, hb⟩ := mem_jobBases.1 hm
+          cases hu : j.ub with
+          | none =>
+            have hmc : Job.mc j = true := by unfold Job.mc; rw [hu]
+            have := hP.mb j hj hmc
+            omega
+          | some f =>
+            exact hns (mem_specBases.2 (Or.inl ⟨j, hj, by rw [hu]; rfl, hb⟩))
+        · exact hns (orphanBases_sub_spec hm)
+      · intro hi
+        rcases h.1.ib hd x hi with h1 | h1
+        · omega
+        · exact hns (orphanBases_sub_spec h1)
+    have ft : FreshT c s1 x := by
+      refine ⟨?_, ?_, ?_⟩
+      · intro sp hsp h1 h2
+        have hne : sp / c.W ≠ k := fun e => tk (mem_scanBlocks.2 (Or.inl ⟨sp, hsp, e⟩))
+        exact (block_excl hne ta hx1 hx2 h1 h2).elim
+      · intro st' k' hm h1 h2
+        have hne : k' ≠ k := fun e => tk (mem_scanBlocks.2 (Or.inr ⟨st', e ▸ hm⟩))
+        exact (block_excl hne ta hx1 hx2 h1 h2).elim
+      · have := offs_mono c (show k + 1 ≤ s1.rd from trd)
+        show x ≤ offs c s1.rd
+        omega
+    refine ⟨UU_addJob
+      { curr := x, base := x,
+        ub := some { endp := x, complete := false, legit := false, inq := true },
+        corrupt := false } h fb (fun _ => ft) ?_, ?_, tk⟩
+    · intro _ f hf hi
+      simp only [Option.some.injEq] at hf
+      subst hf; cases hi
+    · intro y hy h1 h2
+      rcases specBases_addJob _ y hy with ⟨_, e⟩ | hy
+      · exact Nat.le_of_eq e
+      · have := tsp y hy h1 h2
+        omega
+
+theorem UU_requeue {c : Cfg} {s2 : State} {x st k : Nat} (h : UIB s2 ∧ UIT c s2)
+    (ta : offs c k ≤ st) (hx1 : st < x) (hx2 : x ≤ offs c (k + 1))
+    (tsp : ∀ y ∈ specBases s2, offs c k < y → y ≤ offs c (k + 1) → y ≤ x)
+    (tk : k ∉ scanBlocks c s2) :
+    UIB (scanRequeue c s2 x (offs c (k + 1))) ∧ UIT c (scanRequeue c s2 x (offs c (k + 1))) := by
+  unfold scanRequeue; split
+  · next hq =>
+    simp only [Bool.and_eq_true, bne_iff_ne, ne_eq, decide_eq_true_eq] at hq
+    have hdiv : x / c.W = k := div_eq_block ta hx1 (by omega)
+    obtain ⟨hB, hT⟩ := h
+    refine ⟨UIB_frame hB (ShB_same rfl rfl rfl rfl rfl rfl (Or.inl rfl)), ?_, hT.tb, ?_, hT.db, hT.ot⟩
+    · show ((x / c.W) :: scanBlocks c s2).Nodup
+      rw [hdiv]
+      exact List.nodup_cons.2 ⟨tk, hT.t1⟩
+    · intro y hy sp hsp h1 h2
+      rcases List.mem_cons.1 hsp with e | hm
+      · subst e
+        rw [hdiv] at h1 h2
+        exact tsp y hy h1 h2
+      · exact hT.dq y hy sp hm h1 h2
+  · exact h
+
+theorem UU_scanEnd {c : Cfg} {s s' : State} {st k : Nat} (h : UIB s ∧ UIT c s) (hP : PI c s)
+    (hQ : SQ c s) (hs : stepScanEnd c s st k = some s') : UIB s' ∧ UIT c s' := by
+  unfold stepScanEnd at hs; split at hs
+  · next hg =>
+    have hm : Phase.scan st k ∈ s.busy := by simpa using hg
+    have hk : k < s.rd := hQ.bk _ hm
+    have ta := h.2.tb st k hm
+    obtain ⟨b0, t0⟩ := Sh_busy_erase c s (.scan st k)
+    obtain ⟨bd, td⟩ := Sh_detach c { s with busy := s.busy.erase (.scan st k) } (some k)
+    have h1 := UU_frame (UU_frame h b0 t0) bd td
+    have hP1 : PI c (detach { s with busy := s.busy.erase (.scan st k) } (some k)) :=
+      PI_detach _ (PI_busy_erase _ hP)
+    have tk1 : k ∉ scanBlocks c (detach { s with busy := s.busy.erase (.scan st k) } (some k)) := by
+      rw [scanBlocks_detach]
+      have hp := flatMap_erase_perm Phase.scanBlock hm
+      have hn := ((List.Perm.append_left (s.scanQ.map (· / c.W)) hp).nodup_iff).1 h.2.t1
+      have hn2 : (k :: (s.scanQ.map (· / c.W) ++ (s.busy.erase (.scan st k)).flatMap Phase.scanBlock)).Nodup :=
+        (List.perm_middle.nodup_iff).1 hn
+      exact (List.nodup_cons.1 hn2).1
+    have tsp : ∀ y ∈ specBases (detach { s with busy := s.busy.erase (.scan st k) } (some k)),
+        offs c k < y → y ≤ offs c (k + 1) → y ≤ st :=
+      fun y hy => h.2.db y (b0.sb (bd.sb hy)) st k hm
+    have trd : k < (detach { s with busy := s.busy.erase (.scan st k) } (some k)).rd :=
+      Nat.lt_of_lt_of_le hk (Nat.le_trans t0.rd td.rd)
+    generalize detach { s with busy := s.busy.erase (.scan st k) } (some k) = s1 at h1 hP1 tk1 tsp trd hs
+    dsimp only at hs
+    split at hs
+    · simp only [Option.some.injEq] at hs; subst hs
+      exact UU_frame h1 (ShB_same rfl rfl rfl rfl rfl rfl (Or.inl rfl)) (ShT_same rfl rfl (Nat.le_refl _))
+    · next x hx =>
+      split at hs
+      · simp only [Option.some.injEq] at hs; subst hs
+        exact UU_frame h1 (ShB_same rfl rfl rfl rfl rfl rfl (Or.inl rfl))
+          (ShT_same rfl rfl (Nat.le_refl _))
+      · next hpd =>
+        have hd : s1.pdone = false := by simpa using hpd
+        simp only [Option.some.injEq] at hs; subst hs
+        obtain ⟨hx1, hx2⟩ := scanFind_range hx
+        obtain ⟨n1, n2, n3⟩ := UU_scanNew h1 hP1 hd ta tsp tk1 trd hx1 hx2
+        exact UU_requeue n1 ta hx1 hx2 n2 n3
+  · simp at hs
 
 end LbzVerif.Lemmas.SchedD
